@@ -93,7 +93,16 @@ impl Client {
 
 async fn open(hosts: Arc<HostCollection>) -> std::io::Result<tokio::net::TcpStream> {
     // port 0: the kernel picks a free port; the listener accepts exactly this one connection
-    let listener = tokio::net::TcpListener::bind("127.0.0.1:0").await?;
+    // ... on an address of 127/8 of its own, so that the many loopback connections other checks leave in TIME_WAIT on
+    // 127.0.0.1 do not matter
+    static N: std::sync::atomic::AtomicU32 = std::sync::atomic::AtomicU32::new(0);
+    let n = N.fetch_add(1, std::sync::atomic::Ordering::Relaxed);
+    let pid = std::process::id();
+    let ip = std::net::Ipv4Addr::new(127, (1 + pid % 250) as u8, ((pid / 250 + n / 250) % 256) as u8, (1 + n % 250) as u8);
+    let listener = match tokio::net::TcpListener::bind((ip, 0)).await {
+        Ok(l) => l,
+        Err(_) => tokio::net::TcpListener::bind("127.0.0.1:0").await?,
+    };
     let addr = listener.local_addr()?;
     let client = tokio::net::TcpStream::connect(addr).await?;
     let (server_end, peer) = listener.accept().await?;
@@ -115,9 +124,22 @@ async fn run(b: &pipe::Built, ops: &[X]) -> Result<Vec<X>, X> {
         tokio::time::sleep(Duration::from_millis((phase + 1000 - frac) % 1000)).await;
     }
     let t0 = now().as_secs();
-    let stream = match tokio::time::timeout(WAIT, open(Arc::clone(&b.hosts))).await {
-        Ok(Ok(s)) => s,
-        _ => return Err(trouble("loopback connection could not be set up")),
+    let mut stream = None;
+    let mut why = String::new();
+    for attempt in 0..4u64 {
+        match tokio::time::timeout(WAIT, open(Arc::clone(&b.hosts))).await {
+            Ok(Ok(s)) => {
+                stream = Some(s);
+                break;
+            }
+            Ok(Err(e)) => why = format!("loopback connection could not be set up: {e}"),
+            Err(_) => why = "loopback connection could not be set up: time-out".into(),
+        }
+        tokio::time::sleep(Duration::from_millis(50 << attempt)).await;
+    }
+    let stream = match stream {
+        Some(s) => s,
+        None => return Err(trouble(&why)),
     };
     let _ = stream.set_nodelay(true);
     let mut c = Client { stream, buf: Vec::new() };
@@ -181,7 +203,8 @@ async fn run(b: &pipe::Built, ops: &[X]) -> Result<Vec<X>, X> {
                 };
                 let log: Vec<X> = b.shared.log.lock().unwrap().iter().map(X::b).collect();
                 let enc = a.headers.iter().find(|(n, _)| n == b"content-encoding").map(|(_, v)| v.clone());
-                let (decoded, ok) = pipe::decode_body(enc.as_deref(), &a.body);
+                // (no body bytes, e.g. the answer to HEAD: nothing to decode, whatever coding the head names)
+                let (decoded, ok) = if a.body.is_empty() { (Vec::new(), true) } else { pipe::decode_body(enc.as_deref(), &a.body) };
                 last_modified.push(a.headers.iter().find(|(n, _)| n == b"last-modified").map(|(_, v)| v.clone()));
                 let mut reported = Vec::new();
                 for r in &b.report {
@@ -221,7 +244,8 @@ fn wire(x: &X) -> X {
         Some(l) if l.len() == 2 => l,
         _ => return X::bad(),
     };
-    let built = match pipe::build_host(&l[0], None) {
+    let customize = crate::c05::customize(crate::c05::Gate::new());
+    let built = match pipe::build_host(&l[0], Some(&customize)) {
         Some(b) => b,
         None => return X::bad(),
     };
